@@ -6,6 +6,7 @@ run a property's check against the copy and expect exit 1; then delete the copy.
 usage: tools/mutate.py <patch.diff> <PROPERTY> [--tier quick] [--no-suite] [--seed N] [--only SUB]
 """
 import argparse, os, shutil, subprocess, sys, tempfile, time
+ROOT = os.path.dirname(os.path.dirname(os.path.abspath(__file__)))
 
 ap = argparse.ArgumentParser()
 ap.add_argument('patch')
@@ -41,8 +42,8 @@ try:
         cmd = ['/venv/bin/python', '-m', 'wnv.run', prop, '--tier', a.tier, '--scale', a.scale]
         if a.only:
             cmd += ['--only', a.only]
-        env2 = dict(env, PYTHONPATH=copy + os.pathsep + '/verif')
-        c = subprocess.run(cmd, cwd='/verif', env=env2, capture_output=True, text=True)
+        env2 = dict(env, PYTHONPATH=copy + os.pathsep + ROOT)
+        c = subprocess.run(cmd, cwd=ROOT, env=env2, capture_output=True, text=True)
         lines = [l for l in (c.stdout + c.stderr).splitlines() if 'conda' not in l]
         print(f'--- {prop}: exit {c.returncode} in {time.time()-t0:.0f}s')
         for l in lines[-8:]:
@@ -53,8 +54,8 @@ finally:
     shutil.rmtree(work, ignore_errors=True)
     # replays written while checking a mutant do not belong to the real tree
     for p in a.property:
-        if a.keep and os.path.isdir(f'/verif/replays/{p}'):
+        if a.keep and os.path.isdir(f'{ROOT}/replays/{p}'):
             os.makedirs(a.keep, exist_ok=True)
-            for f in os.listdir(f'/verif/replays/{p}'):
+            for f in os.listdir(f'{ROOT}/replays/{p}'):
                 shutil.copy(f'/verif/replays/{p}/{f}', os.path.join(a.keep, f'{p}-{f}'))
-        shutil.rmtree(f'/verif/replays/{p}', ignore_errors=True)
+        shutil.rmtree(f'{ROOT}/replays/{p}', ignore_errors=True)
